@@ -675,7 +675,11 @@ func (p *prog) judgeFrame(o pop, before, after *msnap) *verdict {
 		return r
 	}
 	fail := func(f string, a ...interface{}) *verdict {
-		return &verdict{what: o.String() + " altered " + fmt.Sprintf(f, a...), site: siteData + ":" + o.String()}
+		what := o.String()
+		if org := p.vars[o.v].origin; !strings.HasPrefix(org, "initial") {
+			what += fmt.Sprintf(" (v%d is the result of %s)", o.v, org)
+		}
+		return &verdict{what: what + " altered " + fmt.Sprintf(f, a...), site: siteData + ":" + o.String()}
 	}
 	for i := range before.vars {
 		b, a := before.vars[i], after.vars[i]
